@@ -422,8 +422,17 @@ impl World {
     }
 }
 
-pub fn run_schedule(pw: Option<String>, actions: &[String]) -> String {
-    let rt = tokio::runtime::Builder::new_current_thread().enable_time().start_paused(true).build().unwrap();
+fn runtime(seed: u64) -> tokio::runtime::Runtime {
+    tokio::runtime::Builder::new_current_thread()
+        .enable_time()
+        .start_paused(true)
+        .rng_seed(tokio::runtime::RngSeed::from_bytes(&seed.to_le_bytes()))
+        .build()
+        .unwrap()
+}
+
+pub fn run_schedule(pw: Option<String>, actions: &[String], seed: u64) -> String {
+    let rt = runtime(seed);
     rt.block_on(async {
         let mut w = World::new(pw);
         let mut segs = Vec::new();
@@ -441,7 +450,9 @@ pub fn exec(op: &[&str]) -> String {
             let pwt = op[1].strip_prefix('L').unwrap_or(op[1]);
             let pw = if pwt == "~" { None } else { Some(String::from_utf8(unhex(pwt)).unwrap()) };
             let actions: Vec<String> = if op.len() < 3 || op[2] == "-" { vec![] } else { op[2].split(',').map(|s| s.to_string()).collect() };
-            run_schedule(pw, &actions)
+            // op name: loop.<Cxx>.<select seed>
+            let seed: u64 = op[0].split('.').nth(2).and_then(|s| s.parse().ok()).unwrap_or(0);
+            run_schedule(pw, &actions, seed)
         }
         _ => "badop".into(),
     }
@@ -459,6 +470,7 @@ pub struct SimServer {
     pend: Vec<String>,
     list: Option<Vec<String>>,
     pub locked: bool,
+    bin_limit: Option<usize>,
 }
 
 /// deterministic picture bytes (contain protocol look-alikes)
@@ -508,8 +520,8 @@ fn tokens(line: &str) -> Vec<String> {
 }
 
 impl SimServer {
-    /// reply body of one command; Err = (code, command name, message)
-    fn exec_one(&mut self, line: &str) -> Result<Vec<u8>, (u64, String, String)> {
+    /// reply body of one command; Err = (code, command name, message, output written before failing)
+    fn exec_one(&mut self, line: &str) -> Result<Vec<u8>, (u64, String, String, Vec<u8>)> {
         let t = tokens(line);
         let name = t.first().cloned().unwrap_or_default();
         let mut o = Vec::new();
@@ -517,7 +529,18 @@ impl SimServer {
             "ping" => {}
             "echo" => o.extend(format!("line: {}\n", t.get(1).cloned().unwrap_or_default()).as_bytes()),
             "x" => o.extend(format!("line: {}\n", line).as_bytes()),
-            "fail" => return Err((50, "fail".into(), format!("failed {}", t.get(1).cloned().unwrap_or_default()))),
+            "fail" => return Err((50, "fail".into(), format!("failed {}", t.get(1).cloned().unwrap_or_default()), vec![])),
+            "pfail" => {
+                let a = t.get(1).cloned().unwrap_or_default();
+                return Err((50, "pfail".into(), format!("failed late {a}"), format!("line: partial {a}\nmore: output\n").into_bytes()));
+            }
+            "binarylimit" => {
+                if let Some(n) = t.get(1).and_then(|s| s.parse::<usize>().ok()) {
+                    if n >= 1 {
+                        self.bin_limit = Some(n);
+                    }
+                }
+            }
             "bin" => {
                 let n: usize = t.get(1).and_then(|s| s.parse().ok()).unwrap_or(0);
                 o.extend(format!("line: {}\nbinary: {}\n", line, n).as_bytes());
@@ -536,10 +559,10 @@ impl SimServer {
                 let off: usize = t.get(2).and_then(|s| s.parse().ok()).unwrap_or(0);
                 let f: Vec<&str> = uri.split('_').collect();
                 if f.len() < 6 || f[0] != "art" {
-                    return Err((50, name.clone(), "No such song".into()));
+                    return Err((50, name.clone(), "No such song".into(), vec![]));
                 }
                 let size: usize = f[1].parse().unwrap_or(0);
-                let limit: usize = f[2].parse().unwrap_or(1);
+                let limit: usize = self.bin_limit.unwrap_or(f[2].parse().unwrap_or(1));
                 let src = if name == "readpicture" { f[3] } else { f[4] };
                 match src {
                     "y" => {
@@ -556,11 +579,11 @@ impl SimServer {
                     code => {
                         let c: u64 = code.parse().unwrap_or(50);
                         let msg = if c == 5 { format!("unknown command \"{}\"", name) } else { "No file exists".to_string() };
-                        return Err((c, if c == 5 { String::new() } else { name.clone() }, msg));
+                        return Err((c, if c == 5 { String::new() } else { name.clone() }, msg, vec![]));
                     }
                 }
             }
-            other => return Err((5, String::new(), format!("unknown command \"{}\"", other))),
+            other => return Err((5, String::new(), format!("unknown command \"{}\"", other), vec![])),
         }
         Ok(o)
     }
@@ -631,8 +654,9 @@ impl SimServer {
                             o.extend(b);
                             o.extend(b"list_OK\n");
                         }
-                        Err((code, cmd, msg)) => {
+                        Err((code, cmd, msg, pre)) => {
                             self.out.extend(o);
+                            self.out.extend(pre);
                             self.ack(code, i, &cmd, &msg);
                             return;
                         }
@@ -671,7 +695,10 @@ impl SimServer {
                 self.out.extend(b);
                 self.out.extend(b"OK\n");
             }
-            Err((code, cmd, msg)) => self.ack(code, 0, &cmd, &msg),
+            Err((code, cmd, msg, pre)) => {
+                self.out.extend(pre);
+                self.ack(code, 0, &cmd, &msg)
+            }
         }
     }
 }
@@ -701,7 +728,13 @@ fn gen_request(r: &mut Rng, big: bool) -> String {
     };
     (0..n)
         .map(|i| match r.below(12) {
-            0 => cmd_spec("fail", &[format!("f{i}")]),
+            0 => {
+                if r.chance(1, 2) {
+                    cmd_spec("fail", &[format!("f{i}")])
+                } else {
+                    cmd_spec("pfail", &[format!("p{i}")])
+                }
+            }
             1 => cmd_spec("bin", &[format!("{}", r.pick(&[0usize, 1, 7, 40]))]),
             2 if big => cmd_spec("big", &[format!("{}", r.pick(&[100usize, 4090, 5000, 9000]))]),
             3 => cmd_spec("echo", &[format!("hello world {}", r.below(100))]),
@@ -724,7 +757,8 @@ pub struct GenCfg {
 
 /// one schedule, generated online; returns the op line
 pub fn gen_schedule(r: &mut Rng, g: &GenCfg, steps: usize, prop: &str) -> String {
-    let rt = tokio::runtime::Builder::new_current_thread().enable_time().start_paused(true).build().unwrap();
+    let sel_seed = r.next() % 1_000_000;
+    let rt = runtime(sel_seed);
     rt.block_on(async {
         let pw = if g.password {
             Some(if r.chance(2, 3) { "secret".to_string() } else { r.pick(&["wrong", "sec ret", ""]).to_string() })
@@ -767,6 +801,21 @@ pub fn gen_schedule(r: &mut Rng, g: &GenCfg, steps: usize, prop: &str) -> String
         } else {
             do_act(&mut w, &mut sv, &mut actions, format!("d{}", hex(&greeting))).await;
         }
+        if g.password && r.chance(1, 4) {
+            // the peer ends the stream (or fails) instead of answering the password
+            let a = match r.below(4) {
+                0 => "e".to_string(),
+                1 => format!("r{}", r.below(IO_KINDS.len())),
+                2 => "d41434b205b3340305d207b70617373776f72647d20696e636f72726563742070617373776f72640a".to_string(),
+                _ => "d4f".to_string(),
+            };
+            faulted = a == "e" || a.starts_with('r');
+            do_act(&mut w, &mut sv, &mut actions, a).await;
+            if r.chance(1, 2) {
+                do_act(&mut w, &mut sv, &mut actions, "e".to_string()).await;
+                faulted = true;
+            }
+        }
         for _ in 0..steps {
             let connected = w.connected();
             let a = r.below(if faulted { 9 } else if g.faults { 14 } else { 12 });
@@ -775,7 +824,11 @@ pub fn gen_schedule(r: &mut Rng, g: &GenCfg, steps: usize, prop: &str) -> String
                 0 | 1 | 2 if connected && main_alive => {
                     rid += 1;
                     let pick = r.below(10);
-                    if g.art && pick < 5 {
+                    if g.art && pick == 9 {
+                        // a concurrent caller changes the server's chunk limit mid-download
+                        let n = *r.pick(&[1usize, 2, 3, 5, 64, 4096]);
+                        do_act(&mut w, &mut sv, &mut actions, format!("q{}:{}", rid, cmd_spec("binarylimit", &[n.to_string()]))).await;
+                    } else if g.art && pick < 5 {
                         let size = *r.pick(&[0usize, 1, 2, 5, 6, 7, 12, 100, 4097, 9000]);
                         let limit = *r.pick(&[1usize, 2, 3, 6, 7, 50, 4096, 8192]);
                         let limit = if size / limit > 60 { size / 40 + 1 } else { limit };
@@ -885,7 +938,7 @@ pub fn gen_schedule(r: &mut Rng, g: &GenCfg, steps: usize, prop: &str) -> String
                 break;
             }
         }
-        format!("loop.{} {} {}", prop, pw.map(|p| format!("{}{}", if locked0 { "L" } else { "" }, if p.is_empty() { "-".to_string() } else { hex(p.as_bytes()) })).unwrap_or("~".into()), actions.join(","))
+        format!("loop.{}.{} {} {}", prop, sel_seed, pw.map(|p| format!("{}{}", if locked0 { "L" } else { "" }, if p.is_empty() { "-".to_string() } else { hex(p.as_bytes()) })).unwrap_or("~".into()), actions.join(","))
     })
 }
 
